@@ -89,6 +89,10 @@ def minimise(prop, pid, res, key, root, nworkers, budget_runs, wall_s):
 
 def write_replay(pid, res, ops, key, message, detail=None, suffix=''):
     d = os.path.join(core.VERIF, 'replays')
+    if os.path.realpath(core.REPO) != '/repo':
+        # runs against a scratch copy (seeded changes) never touch /verif
+        d = os.path.join(os.environ.get('VERIF_SCRATCH', '/dev/shm'),
+                         'berte-replays')
     os.makedirs(d, exist_ok=True)
     name = '%s-%s%s.json' % (pid, digest([key, res['seed']]), suffix)
     path = os.path.join(d, name)
@@ -192,7 +196,7 @@ def write_evidence(prop, pid, args, agg, wall, nviol, det=None):
         'assumptions': getattr(prop, 'ASSUMPTIONS', []),
         'wall_s': round(wall, 2), 'violations': nviol,
     }
-    if not args.no_evidence:
+    if not args.no_evidence and os.path.realpath(core.REPO) == '/repo':
         os.makedirs(os.path.join(core.VERIF, 'evidence'), exist_ok=True)
         core.write_json(os.path.join(core.VERIF, 'evidence', pid + '.json'),
                         ev)
